@@ -145,4 +145,33 @@ PROPS["C06"] = dict(
     parts=[dict(engine="e1", harness="c06_locks_hb")],
 )
 
+PROPS["C03"] = dict(
+    level="model_checking",
+    rule="cases: do_all over vector / list / integer range / InsertBag "
+         "(local iterators) with sizes 0..6, chunk sizes 1..3, steal on/off, "
+         "1-3 threads on fake [2] [1,1] [3] [2,1] [1,1,1] machines, and pairs "
+         "of consecutive regions with different setActiveThreads; on_each "
+         "with sequences of active-thread counts (3 then 2, 1 then 3, 4 then "
+         "2 ...). Executions = all schedules with <= bound deviations "
+         "(includes the pool's wake-up cascade / de-cascade). Oracle: every "
+         "element / thread id invoked exactly once (engine-invisible "
+         "counters), tid < active, no invocation after the call returned; "
+         "no deadlock / livelock; non-trivial = distinct trace hash among "
+         "executions with >= 1 deviation",
+    bound_note="per-cell bound_completed in coverage.cells",
+    assumptions=E1_ASSUME,
+    deadline=dict(quick=200, thorough=2400),
+    technique="stateless model checking of the implementation: exhaustive "
+              "deviation-bounded schedule enumeration (gsched) of do_all / "
+              "on_each and the thread pool",
+    level_text="every schedule with <= d deviations (d=1 quick, 1-3 "
+               "thorough per cell) of the real do_all stealing executor, "
+               "on_each and ThreadPool::run on fake multi-socket machines; "
+               "exactly-once and join are checked on each execution",
+    level_note="bounded: <=4 threads, ranges of <=6 elements, deviation "
+               "bound per cell; range arithmetic for large sizes is C13's",
+    design_ref="DESIGN.md 2, 7/C03",
+    parts=[dict(engine="e1", harness="c03_doall")],
+)
+
 NOT_APPLICABLE = {}
